@@ -360,6 +360,9 @@ impl Target {
                     }
                 };
 
+                // The constant belongs to the whole variable only when the whole variable is
+                // assigned; after `x.a = 2` the variable `x` is not the constant `2`.
+                let value = if path.is_root() { value } else { None };
                 let details = Details { type_def, value };
                 state.local.insert_variable(ident.clone(), details);
             }
